@@ -4,14 +4,14 @@
 D="$1"; WT="${2:-/tmp/wt/base}"
 set -u
 cd "$WT" || exit 2
-git checkout -q -- . ; git clean -qfd -e target
+git checkout -q -- . ; git clean -qfd -e target -e ".*.log"
 git apply --check "$D/patch.diff" || { echo "CONFIRM: patch does not apply"; exit 1; }
 export CARGO_NET_OFFLINE=true
 cargo build --offline -q 2>/dev/null || { echo "CONFIRM: base build failed"; exit 1; }
 chmod +x "$D/demo.sh"
-if "$D/demo.sh" "$WT" >/tmp/wt/demo_base.log 2>&1; then echo "CONFIRM: demo passes on unmodified tree: ok"; else echo "CONFIRM: demo FAILS on unmodified tree (bad demo)"; tail -5 /tmp/wt/demo_base.log; fi
+if "$D/demo.sh" "$WT" >$WT/.demo_base.log 2>&1; then echo "CONFIRM: demo passes on unmodified tree: ok"; else echo "CONFIRM: demo FAILS on unmodified tree (bad demo)"; tail -5 $WT/.demo_base.log; fi
 git apply "$D/patch.diff"
-if cargo build --offline -q 2>/tmp/wt/build.log; then echo "CONFIRM: builds with patch: ok"; else echo "CONFIRM: build FAILED with patch"; tail -20 /tmp/wt/build.log; git checkout -q -- .; exit 1; fi
-if "$D/demo.sh" "$WT" >/tmp/wt/demo_mut.log 2>&1; then echo "CONFIRM: demo PASSES with patch (mutant not demonstrated)"; else echo "CONFIRM: demo fails with patch: ok"; tail -4 /tmp/wt/demo_mut.log; fi
+if cargo build --offline -q 2>$WT/.build.log; then echo "CONFIRM: builds with patch: ok"; else echo "CONFIRM: build FAILED with patch"; tail -20 $WT/.build.log; git checkout -q -- .; exit 1; fi
+if "$D/demo.sh" "$WT" >$WT/.demo_mut.log 2>&1; then echo "CONFIRM: demo PASSES with patch (mutant not demonstrated)"; else echo "CONFIRM: demo fails with patch: ok"; tail -4 $WT/.demo_mut.log; fi
 /verif/tools/run_pinned_suite.sh "$WT" | head -20
-git checkout -q -- . ; git clean -qfd -e target
+git checkout -q -- . ; git clean -qfd -e target -e ".*.log"
